@@ -33,12 +33,19 @@ World configurations (each searched separately; a witness names its cfg):
                 restart): new HippoClientRegion, new Circuit, both sides start their packet ids over.  The harness moves
                 its region-level subscribers to the new region; the old region's subscribers stay attached and must never
                 be called again (site ...region_by_circuit_addr:stale-region).  Same oracle on both sides of X.
+  queue         as solo with a thin alphabet (chat only, one send_reliable) where every chat packet has the SAME body (only
+                packet ids differ) and a subscribe_async (queue-style) subscriber sits at session level and at region level,
+                each drained by a consumer task.  Oracle: the existing delivery counts applied to the queue consumers
+                (site MessageHandler.subscribe_async:<level>-queue): every unreliable receipt and every first reliable
+                receipt reaches them exactly once, retransmissions never.
   window family (not a BFS): see window_family() -- reliable ids, a burst ("B", N) of N unreliable packets with fresh ids,
                 N around the measured dedupe window, then retransmissions: unreliable traffic must not evict reliable ids.
 
 Alphabet (events are tuples; the last field of R/AP/AA is the deviation tag):
   ("R", p, kind, rel, resent, defer, dev)
         peer datagram with packet id p in {1,2,3}; kind "chat" (ChatFromSimulator) | "ping" (StartPingCheck);
+        "ping@K" (cfg solo, unreliable, in order [dev]) = a StartPingCheck whose OldestUnacked field is K: any reliable id
+        the peer sent, its newest id, newest+1 ("our ack was lost"); plain "ping" carries OldestUnacked 0;
         rel = RELIABLE flag; resent = RESENT flag (reliable only).  The content of an id is fixed by its first
         arrival (a peer never reuses an id for another message).  Default: next id in order, no RESENT.
         Deviations: duplicate / retransmission of an id already received (with or without RESENT), gap (p = max+2),
@@ -140,7 +147,8 @@ LOGIN = {
     "seed_capability": "https://127.0.0.1:4/foo",
 }
 PEER_IDS = (1, 2, 3)
-CFGS = ("solo", "shared", "prehandshake", "selfunsub", "reregister")
+CFGS = ("solo", "shared", "prehandshake", "selfunsub", "reregister", "queue")
+SITE_QUEUE = "MessageHandler.subscribe_async"
 SITE_STALE_REGION = "BaseClientSession.region_by_circuit_addr:stale-region"
 CARRIER_BASE = 100
 F_ZERO, F_REL, F_RESENT, F_ACK = 0x80, 0x40, 0x20, 0x10
@@ -150,6 +158,15 @@ MAX_SR, MAX_SU, MAX_SP = 2, 1, 1
 QUICK_DEPTH = 5
 BUDGET = next(f.default for f in dataclasses.fields(ReliableResendInfo) if f.name == "tries_left")
 NAME = {"chat": "ChatFromSimulator", "ping": "StartPingCheck"}
+
+
+def kind_name(kind: str) -> str:
+    """'chat' | 'ping' | 'ping@K' (a StartPingCheck whose OldestUnacked field is K; plain 'ping' carries 0)."""
+    return NAME[kind.split("@")[0]]
+
+
+def kind_ou(kind: str) -> int:
+    return int(kind.split("@")[1]) if "@" in kind else 0
 
 SITE_SESSION = "HippoClientProtocol.datagram_received:session-handler"
 SITE_REGION = "HippoClientProtocol.datagram_received:region-handler"
@@ -165,7 +182,7 @@ def peer_datagram(name: str, pid: int, flags: int, acks=(), **body) -> bytes:
     if name == "ChatFromSimulator":
         blocks = [("ChatData", [{"FromName": b"sim\x00", "Message": body["text"].encode() + b"\x00"}])]
     elif name == "StartPingCheck":
-        blocks = [("PingID", [{"PingID": body["ping"], "OldestUnacked": 0}])]
+        blocks = [("PingID", [{"PingID": body["ping"], "OldestUnacked": body.get("ou", 0)}])]
     elif name == "PacketAck":
         blocks = [("Packets", [{"ID": i} for i in body["ids"]])]
     else:  # pragma: no cover
@@ -300,7 +317,7 @@ class World:
         self.events = []
         for level, handler in (("session", self.session.message_handler), ("region", self.region.message_handler)):
             for key in ("ChatFromSimulator", "StartPingCheck", "*"):
-                if key == "StartPingCheck" and level == "region" and cfg in ("solo", "reregister"):
+                if key == "StartPingCheck" and level == "region" and cfg in ("solo", "reregister", "queue"):
                     continue  # cfg "solo": the built-in async handler is the only subscriber of that region-level Event
                 if cfg == "selfunsub":
                     # a subscriber that removes itself while being notified, registered AHEAD of the persistent one
@@ -316,6 +333,11 @@ class World:
                         handler.subscribe(key, fired)
                 handler.subscribe(key, self._make_sub(level, "*" if key == "*" else "name"))
                 self.events.append(handler.register(key))
+        self.qlog = []
+        if cfg == "queue":
+            self.attach_queue_subscribers()
+        self.q_owed: Dict[Tuple[str, int], int] = {}
+        self.q_cursor = 0
         self.loop.run_ready()  # start the resend task (first poll, then sleeping)
         # --- reference model -----------------------------------------------------------------------------
         self.violations: List[Dict[str, Any]] = []
@@ -367,6 +389,26 @@ class World:
         self.ack_debt, self.ping_owed, self.ping_seen = {}, {}, {}
         self.echo_msg = None
 
+    def text(self, p: int) -> str:
+        """Chat body of peer packet p: cfg queue gives every packet the SAME body (only ids differ)."""
+        return "same" if self.cfg == "queue" else f"m{p}"
+
+    def attach_queue_subscribers(self):
+        """cfg queue: a subscribe_async (queue-style) subscriber at session level and at region level, each drained
+        by a consumer task that records what it was handed."""
+        self.qlog: List[Tuple[str, int]] = []
+        self._queue_cms = []
+        for level, handler in (("session", self.session.message_handler), ("region", self.region.message_handler)):
+            cm = handler.subscribe_async(("ChatFromSimulator",))
+            get = cm.__enter__()
+            self._queue_cms.append(cm)
+
+            async def _consume(level=level, get=get):
+                while True:
+                    msg = await get()
+                    self.qlog.append((level, msg.packet_id))
+            self._queue_cms.append(self.loop.create_task(_consume()))
+
     def _make_selfunsub(self, level, key, form):
         def _leaver(msg):
             self.selfunsub_fired.append((level, key, form))
@@ -392,9 +434,9 @@ class Harness:
         assert cfg in CFGS
         self.cfg = cfg
         self.kinds = {"solo": ("chat", "ping"), "shared": ("ping",), "prehandshake": ("chat",),
-                      "selfunsub": ("chat", "ping"), "reregister": ("chat",)}[cfg]
+                      "selfunsub": ("chat", "ping"), "reregister": ("chat",), "queue": ("chat",)}[cfg]
         self.peer_ids = PEER_IDS if cfg not in ("prehandshake", "reregister") else PEER_IDS[:2]
-        if cfg in ("selfunsub", "reregister"):  # differs from solo/shared on the dispatch side only: a thin send side suffices
+        if cfg in ("selfunsub", "reregister", "queue"):  # differs from solo/shared on the dispatch side only: a thin send side suffices
             max_sr, max_su, max_sp = min(max_sr, 1), 0, 0
         self.site_resend = SITE_RESEND if cfg != "prehandshake" else SITE_RESEND_NOT_ALIVE
         self.mute = set(tuple(m) for m in mute)
@@ -406,7 +448,7 @@ class Harness:
     def subs_for(self, level: str, name: str):
         if name not in NAME.values():
             return ("*",)
-        if name == "StartPingCheck" and level == "region" and self.cfg in ("solo", "reregister"):
+        if name == "StartPingCheck" and level == "region" and self.cfg in ("solo", "reregister", "queue"):
             return ("*",)
         return ("name", "*")
 
@@ -427,6 +469,12 @@ class Harness:
                     evs.append(("R", p, kind, rel, resent, defer, 1))
             elif p in new_ids:
                 inorder = (p == w.max_peer + 1)
+                if inorder and self.cfg == "solo":
+                    # a StartPingCheck whose OldestUnacked says which packet the sim still considers unacked (our ack
+                    # was lost): any reliable id it sent, its newest id, newest+1; plain "ping" carries 0
+                    ous = sorted({q for q, (_, r) in w.peer.items() if r} | {w.max_peer, w.max_peer + 1}) if w.peer else []
+                    for k in ous:
+                        evs.append(("R", p, f"ping@{k}", 0, 0, 0, 1))
                 for kind in (self.kinds if inorder else self.kinds[:1]):
                     # out-of-order arrival matters only through the id (dedupe), so only one kind arrives out of order
                     # (rel, resent, defer): RESENT on a first arrival only on chat (the receive path never looks at the
@@ -515,7 +563,7 @@ class Harness:
         return (tuple(c.seen_reliable), c.packet_id_base, unacked, c.is_alive, ready, timers,
                 tuple(sorted(w.peer.items())), w.max_peer, sends, w.n_sends - w.n_sr, w.n_sr, w.n_sp,
                 (w.echo_msg.name, int(w.echo_msg.send_flags) & F_REL) if w.echo_msg is not None else None,
-                tuple(len(e) for e in w.events), w.alive, w.generation, w.n_x, w.before_x, w.n_cancel, w.client._resend_task.done(),
+                tuple(len(e) for e in w.events), w.alive, w.generation, w.n_x, w.before_x, w.n_cancel, w.client._resend_task.done(), tuple(sorted(w.q_owed.items())), len(w.qlog) - w.q_cursor,
                 w.last_issued,
                 self.stale_id(w), tuple(sorted(w.ack_debt)), tuple(sorted(w.ping_owed.items())),
                 tuple(sorted(w.ping_seen.items())))
@@ -668,6 +716,24 @@ class Harness:
                          f"answered {seen} time(s) since the last quiescence, expected {owed}")
             w.ping_owed.clear()
             w.ping_seen.clear()
+            if self.cfg == "queue":
+                seen: Dict[Tuple[str, int], int] = {}
+                for e in w.qlog[w.q_cursor:]:
+                    seen[e] = seen.get(e, 0) + 1
+                w.q_cursor = len(w.qlog)
+                for key in sorted(set(seen) | set(w.q_owed)):
+                    got, owed = seen.get(key, 0), w.q_owed.get(key, 0)
+                    if got == owed:
+                        continue
+                    level, p = key
+                    rel = w.peer[p][1] if p in w.peer else 0
+                    clause = ("unreliable-delivery" if not rel else
+                              "dispatch-once" if got > owed else "dispatch-first-receipt")
+                    self.bad(w, clause, f"{SITE_QUEUE}:{level}-queue",
+                             f"ChatFromSimulator id {p} ({'reliable' if rel else 'unreliable'}): the {level}-level "
+                             f"subscribe_async consumer was handed it {got} time(s) since the last quiescence, expected "
+                             f"{owed} (all chat bodies are equal in this cfg, only the packet ids differ)")
+                w.q_owed.clear()
 
     # ---- transitions ------------------------------------------------------------------------------------------
     def deliver(self, w: World, data: bytes, pid: int, name: str, rel: int, first: bool, acks=(), form: str = "",
@@ -713,6 +779,9 @@ class Harness:
             w.ack_debt[pid] = w.loop.time()
         if name == "StartPingCheck":
             w.ping_owed[pid] = w.ping_owed.get(pid, 0) + expect
+        if self.cfg == "queue" and name == "ChatFromSimulator":
+            for level in ("session", "region"):
+                w.q_owed[(level, pid)] = w.q_owed.get((level, pid), 0) + expect
         return expect
 
     def burst(self, w: World, n: int):
@@ -753,9 +822,9 @@ class Harness:
             w.peer.setdefault(p, (k, rel))
             w.max_peer = max(w.max_peer, p)
             flags = (F_REL if rel else 0) | (F_RESENT if resent else 0)
-            data = peer_datagram(NAME[k], p, flags, text=f"m{p}", ping=p)
+            data = peer_datagram(kind_name(k), p, flags, text=w.text(p), ping=p, ou=kind_ou(k))
             w.last_rx = None
-            self.deliver(w, data, p, NAME[k], rel, first)
+            self.deliver(w, data, p, kind_name(k), rel, first)
             if w.last_rx is not None and w.last_rx.packet_id == p:
                 w.echo_msg = w.last_rx
             quiescent = not defer
@@ -776,8 +845,8 @@ class Harness:
                 k, rel = w.peer[p]
                 assert rel
                 w.dup_receipts += 1
-                data = peer_datagram(NAME[k], p, F_REL | F_RESENT, acks=ids, text=f"m{p}", ping=p)
-                self.deliver(w, data, p, NAME[k], 1, False, acks=ids, form="appended-on-duplicate")
+                data = peer_datagram(kind_name(k), p, F_REL | F_RESENT, acks=ids, text=w.text(p), ping=p, ou=kind_ou(k))
+                self.deliver(w, data, p, kind_name(k), 1, False, acks=ids, form="appended-on-duplicate")
         elif kind == "AB":
             # one PacketAck datagram using both forms at once: ids in its Packets blocks AND ids appended after the body
             body, app = tuple(ev[1]), tuple(ev[2])
